@@ -33,10 +33,15 @@ struct Ctx {
     skipped_big: usize,
     errors: usize,
     panics: usize,
+    panic_msgs: std::collections::BTreeMap<String, usize>,
     max_rows: usize,
 }
 
 impl Ctx {
+    fn note_panic(&mut self, p: &str) {
+        self.panics += 1;
+        *self.panic_msgs.entry(p.chars().take(90).collect::<String>().replace('\n', " ")).or_insert(0) += 1;
+    }
     fn produced(&mut self, api: &str, stage: usize, a: &ArrayRef) {
         let d = match guarded(|| a.to_data()) {
             Ok(d) => d,
@@ -81,8 +86,8 @@ fn call(cx: &mut Ctx, f: impl FnOnce() -> R) -> Option<ArrayRef> {
             cx.errors += 1;
             None
         }
-        Err(_) => {
-            cx.panics += 1;
+        Err(p) => {
+            cx.note_panic(&p);
             None
         }
     }
@@ -418,7 +423,7 @@ fn step(cx: &mut Ctx, rng: &mut Rng, a: &ArrayRef, stage: usize) -> Vec<(String,
                     }
                 }
                 Ok(Err(_)) => cx.errors += 1,
-                Err(_) => cx.panics += 1,
+                Err(p) => cx.note_panic(&format!("[row] {p}")),
             }
         }
         23 | 24 => {
@@ -432,7 +437,7 @@ fn step(cx: &mut Ctx, rng: &mut Rng, a: &ArrayRef, stage: usize) -> Vec<(String,
                         }
                     }
                     Ok(Err(_)) => cx.errors += 1,
-                    Err(_) => cx.panics += 1,
+                    Err(p) => cx.note_panic(&format!("[ipc] {p}")),
                 }
             }
         }
@@ -446,7 +451,7 @@ fn step(cx: &mut Ctx, rng: &mut Rng, a: &ArrayRef, stage: usize) -> Vec<(String,
                         }
                     }
                     Ok(Err(_)) => cx.errors += 1,
-                    Err(_) => cx.panics += 1,
+                    Err(p) => cx.note_panic(&format!("[csv] {p}")),
                 }
             }
         }
@@ -460,7 +465,7 @@ fn step(cx: &mut Ctx, rng: &mut Rng, a: &ArrayRef, stage: usize) -> Vec<(String,
                         }
                     }
                     Ok(Err(_)) => cx.errors += 1,
-                    Err(_) => cx.panics += 1,
+                    Err(p) => cx.note_panic(&format!("[json] {p}")),
                 }
             }
         }
@@ -568,7 +573,7 @@ fn main() {
     let args = Args::parse();
     vcore::quiet_panics();
     let mut rng = Rng::new(args.seed);
-    let mut cx = Ctx { t: Shards::create(&args.out, "outputs", 14), pipe: 0, arrays: 0, batches: 0, skipped_big: 0, errors: 0, panics: 0, max_rows: 33 };
+    let mut cx = Ctx { t: Shards::create(&args.out, "outputs", 14), pipe: 0, arrays: 0, batches: 0, skipped_big: 0, errors: 0, panics: 0, panic_msgs: Default::default(), max_rows: 33 };
     let types = mk::all_types();
     let rounds = args.scale(4, 60);
     for round in 0..rounds {
@@ -607,6 +612,10 @@ fn main() {
             text_readers(&mut cx, &mut rng);
             cx.t.next_episode();
         }
+    }
+    // panics inside kernels on valid inputs: observations for the report, not outputs
+    for (m, c) in cx.panic_msgs.iter().take(12) {
+        println!("KERNEL-PANIC x{c}: {m}");
     }
     let n = cx.t.finish();
     println!("DRIVER c01 events={n} arrays={} batches={} pipelines={} kernel_errors={} kernel_panics={} skipped_big={}",
